@@ -158,34 +158,60 @@ def written_value(obs, inst, pi, ai):
     return None
 
 
-def oracle(base, optional, strict, obs, idx, exit_thr, value):
-    """C15's statement on one observation; returns None or what is wrong"""
+def oracle(base, optional, strict, obs, idx, exit_thr, value, dollar=True):
+    """C15's statement on one observation; returns None or what is wrong.
+    dollar=True: the value is `$` (the statement's quantifier); dollar=False: no value at all before the delimiter -
+    accepted for an OPTIONAL attribute, a malformed parameter list (incomplete, read fails) for a required one in
+    both modes (test_multiple_inheritance_derived_16 of the shipped suite fixes that reading)."""
     exit1 = SEV_RANK[obs["sev"]] <= SEV_RANK[exit_thr]
     st = obs["states"][idx] if idx < len(obs["states"]) else "absent"
+    tok = "`$`" if dollar else "absent value"
     if optional:
         if exit1:
-            return f"unset OPTIONAL {base} attribute: read not accepted (file severity {obs['sev']})"
+            return f"{tok} for OPTIONAL {base} attribute: read not accepted (file severity {obs['sev']})"
         if st != "completeSE":
-            return f"unset OPTIONAL {base} attribute: instance state {st}"
+            return f"{tok} for OPTIONAL {base} attribute: instance state {st}"
         return None
-    if strict:
+    if strict or not dollar:
+        mode = "strict mode" if strict else "lenient mode"
         if not exit1:
-            return f"strict mode, unset required {base}: read does not fail (file severity {obs['sev']})"
+            return f"{mode}, {tok} for required {base}: read does not fail (file severity {obs['sev']})"
         if st != "incompleteSE":
-            return f"strict mode, unset required {base}: instance not reported incomplete (state {st})"
+            return f"{mode}, {tok} for required {base}: instance not reported incomplete (state {st})"
         return None
     if base in SUBST:
         if exit1:
-            return f"lenient mode, unset required {base}: file rejected (file severity {obs['sev']}) instead of accepted with a user message"
+            return f"lenient mode, `$` for required {base}: file rejected (file severity {obs['sev']}) instead of accepted with a user message"
         if obs["sev"] != "USERMSG":
-            return f"lenient mode, unset required {base}: accepted without a user message (file severity {obs['sev']})"
+            return f"lenient mode, `$` for required {base}: accepted without a user message (file severity {obs['sev']})"
         if value is None or value[0] != "tok" or not G.tok_equal(value[1], SUBST[base]):
-            return f"lenient mode, unset required {base}: value written back is {value!r}, expected {SUBST[base]}"
+            return f"lenient mode, `$` for required {base}: value written back is {value!r}, expected {SUBST[base]}"
         return None
     if not exit1:
-        return f"lenient mode, unset required {base}: read does not fail (file severity {obs['sev']})"
+        return f"lenient mode, `$` for required {base}: read does not fail (file severity {obs['sev']})"
     if st != "incompleteSE":
-        return f"lenient mode, unset required {base}: instance not reported incomplete (state {st})"
+        return f"lenient mode, `$` for required {base}: instance not reported incomplete (state {st})"
+    return None
+
+
+# classes recorded in KNOWN_FINDINGS.txt (repairs C15-3 / C15-4 were rejected by the shipped 258-test suite)
+K_NONHEAD = "complex:nonhead-part-error-dropped"
+K_ESCALATED = "complex:usermsg-escalated"
+
+
+def known_class(info, obs, idx, value):
+    """the stable key of a recorded defect when the observation has exactly its signature, else None"""
+    if info["optional"]:
+        return None
+    st = obs["states"][idx] if idx < len(obs["states"]) else "absent"
+    if info["shape"] == "complex-part" and obs["sev"] == "NULL" and st == "completeSE":
+        # STEPcomplex::STEPread drops what every part but the first reports: the instance reads clean
+        return K_NONHEAD
+    if (info["shape"] == "complex-head" and not info["strict"] and info["dollar"] and info["kind"] in SUBST
+            and obs["sev"] == "WARNING" and st == "completeSE"
+            and value is not None and value[0] == "tok" and G.tok_equal(value[1], SUBST[info["kind"]])):
+        # the part substituted with a user message; ReadData2/AppendFile escalate the complex instance's USERMSG
+        return K_ESCALATED
     return None
 
 
@@ -275,10 +301,15 @@ def run_schema(ctx, b, schema, pop, workdir, exe, p21read, model_exe, exit_thr, 
             ctx.hist("impl file severity", obs["sev"])
             info = {"kind": a.base, "optional": a.optional, "strict": strict, "shape": shape, "dollar": dollar,
                     "pop": m, "idx": idx, "pi": pi, "ai": ai, "attr": a.name}
-            e = oracle(a.base, a.optional, strict, obs, idx, exit_thr, val)
+            e = oracle(a.base, a.optional, strict, obs, idx, exit_thr, val, dollar)
             if e:
+                kc = known_class(info, obs, idx, val)
+                info["known_class"] = kc
                 problems["property"].append((info, e))
-                continue
+                if kc is None:
+                    continue
+                ctx.hist("recorded defect class hit", kc)
+                # a recorded defect: the model follows the code, so the correspondence below is still demanded
             # the real p21read on a sample: one file per class
             if p21read and cls not in sampled and len(sampled) < p21_sample:
                 sampled.add(cls)
@@ -290,7 +321,7 @@ def run_schema(ctx, b, schema, pop, workdir, exe, p21read, model_exe, exit_thr, 
                 if r.returncode != want:
                     problems["property"].append((info, f"p21read{' -s' if strict else ''} exits {r.returncode}, the severity rule gives {want} ({obs['sev']})"))
                     continue
-                if r.returncode == 0 and not a.optional and not strict and a.base in SUBST:
+                if r.returncode == 0 and not e and not a.optional and not strict and dollar and a.base in SUBST:
                     try:
                         _, _, wr = G.parse_p21(open(outp).read())
                         w = [i for _, i in wr if i.id == m[idx].id][0]
@@ -325,8 +356,10 @@ def run_schema(ctx, b, schema, pop, workdir, exe, p21read, model_exe, exit_thr, 
 def key_of(info):
     if info.get("kind") == "conforming":
         return f"conforming:strict={int(info['strict'])}"
+    if info.get("known_class"):
+        return info["known_class"]
     return (f"{'strict' if info['strict'] else 'lenient'}:{'optional' if info['optional'] else 'required'}:"
-            f"{info['kind']}:{info['shape']}")
+            f"{'dollar' if info.get('dollar', True) else 'absent'}:{info['kind']}:{info['shape']}")
 
 
 def minimal_replay(schema, info):
@@ -339,7 +372,8 @@ def minimal_replay(schema, info):
             "file": G.render(schema.name, mini), "strict": info["strict"],
             "affected_instance": None if info.get("idx") is None else pop[info["idx"]].id,
             "attribute": info.get("attr"), "kind": info.get("kind"), "optional": info.get("optional"),
-            "part": info.get("pi"), "position": info.get("ai"),
+            "part": info.get("pi"), "position": info.get("ai"), "dollar": info.get("dollar", True),
+            "shape": info.get("shape"),
             "how": "exp2cxx the schema, link harness/h_p21.cc (or src/test/p21read/p21read.cc) with it, "
                    "`reset <strict>`, `read FILE`, `dump`, `inst <index>`"}
 
@@ -413,7 +447,7 @@ def run(ctx):
             seen.add(k)
             ctx.violation(k, what, minimal_replay(s, info))
             reported = True
-        if not pr["property"] and pr["correspondence"]:
+        if not [1 for i_, _ in pr["property"] if not i_.get("known_class")] and pr["correspondence"]:
             info, what = pr["correspondence"][0]
             rp = minimal_replay(s, info) if info else {}
             ctx.broken.append(("correspondence AttrNull model vs STEPattribute::STEPread/STEPfile",
@@ -458,8 +492,10 @@ def replay(ctx, path):
                 ctx.violation(d.get("key", "replay"), f"conforming population not accepted: {obs}", r)
             return
         val = written_value(obs, insts[idx][1], r["part"], r["position"])
-        e = oracle(r["kind"], r["optional"], r["strict"], obs, idx, exit_threshold(), val)
+        e = oracle(r["kind"], r["optional"], r["strict"], obs, idx, exit_threshold(), val, r.get("dollar", True))
         if e:
-            ctx.violation(d.get("key", "replay"), e, r)
+            info = {"optional": r["optional"], "strict": r["strict"], "kind": r["kind"], "dollar": r.get("dollar", True),
+                    "shape": r.get("shape", "simple")}
+            ctx.violation(known_class(info, obs, idx, val) or d.get("key", "replay"), e, r)
     finally:
         h.close()
